@@ -1,6 +1,6 @@
 (* C14_Proofs9.v — transparency, partial: without Reset/Close in the programs and without driver
    faults every operation returns ROk (same rows as without the cache). *)
-From Verif Require Import Base C14_Model C14_Check C14_Proofs C14_Proofs2 C14_Proofs3 C14_Proofs4 C14_Proofs5 C14_Proofs6 C14_Proofs7.
+From Verif Require Import Base C14_Model C14_Count C14_Proofs C14_Proofs2 C14_Proofs3 C14_Proofs4 C14_Proofs5 C14_Proofs6 C14_Proofs7.
 
 Definition is_exec (o : op) : Prop := match o with OExec _ _ _ => True | _ => False end.
 Definition pc_ok (p : pc) : Prop :=
@@ -115,7 +115,7 @@ Proof.
     (fun s => all_done s && negb (s_stolen s) && map_is_nil s
               && nl_eqb (map (fun p => fst (fst p)) (s_prep s)) [0]
               && nl_eqb (map (fun p => snd (fst p)) (s_prep s)) [0]
-              && nl_eqb (map (fun p => C14_Check.b2n (snd p)) (s_prep s)) [0]
+              && nl_eqb (map (fun p => C14_Count.b2n (snd p)) (s_prep s)) [0]
               && nl_eqb (s_fails s) [0] && nl_eqb (s_evicts s) [0])) as [s [R H]];
     [vm_compute; reflexivity|].
   exists s. repeat (apply andb_prop in H; let H2 := fresh "G" in destruct H as [H H2]).
@@ -138,7 +138,7 @@ Proof.
     repeat (destruct H as [H|H]; [inversion H; subst; auto|]). destruct H.
   - destruct (run_witness w7_progs w7_sched
       (fun s => all_done s && nl_eqb (map fst (s_calls s)) [0]
-                && nl_eqb (map (fun p => C14_Check.b2n (snd p)) (s_calls s)) [0]
+                && nl_eqb (map (fun p => C14_Count.b2n (snd p)) (s_calls s)) [0]
                 && res_eqb (results s) [[ROk]; [ROk]])) as [s [R H]];
       [vm_compute; reflexivity|].
     exists s. repeat (apply andb_prop in H; let H2 := fresh "G" in destruct H as [H H2]).
